@@ -78,6 +78,7 @@ func (f *DeleteDuplicates) Call(s *slip.Scope, args slip.List, depth int) (resul
 
 	switch ta := args[0].(type) {
 	case nil:
+		di.checkBounds(s, depth, 0)
 		// nothing to delete-duplicates
 	case slip.List:
 		result = di.inList(s, ta, depth)
@@ -95,9 +96,7 @@ func (f *DeleteDuplicates) Call(s *slip.Scope, args slip.List, depth int) (resul
 }
 
 func (di *dupInfo) inList(s *slip.Scope, seq slip.List, depth int) (list slip.List) {
-	if di.end < 0 || len(seq) < di.end {
-		di.end = len(seq)
-	}
+	di.checkBounds(s, depth, len(seq))
 	d2 := depth + 1
 	// The last duplicate is kept for reverse the direction from what fromEnd
 	// dictates.
@@ -133,9 +132,7 @@ func (di *dupInfo) inList(s *slip.Scope, seq slip.List, depth int) (list slip.Li
 
 func (di *dupInfo) inString(s *slip.Scope, seq slip.String, depth int) slip.Object {
 	ra := []rune(seq)
-	if di.end < 0 || len(seq) < di.end {
-		di.end = len(seq)
-	}
+	di.checkBounds(s, depth, len(ra))
 	d2 := depth + 1
 	var nra []rune
 	if di.fromEnd {
@@ -168,9 +165,7 @@ func (di *dupInfo) inString(s *slip.Scope, seq slip.String, depth int) slip.Obje
 
 func (di *dupInfo) inOctets(s *slip.Scope, seq slip.Octets, depth int) slip.Object {
 	ba := []byte(seq)
-	if di.end < 0 || len(seq) < di.end {
-		di.end = len(seq)
-	}
+	di.checkBounds(s, depth, len(seq))
 	d2 := depth + 1
 	var nba []byte
 	if di.fromEnd {
